@@ -12,6 +12,17 @@ use std::io::{Cursor, Read, Seek, SeekFrom, Write};
 const CONFIGS: [&str; 9] = ["mem", "phys", "alt(mem)", "alt(phys)", "ovl(mem,mem)", "ovl(phys,mem)", "ovl(mem,phys)", "ovl(mem,mem,mem)", "ovl(mem,mem,mem,mem)"];
 
 fn content(rng: &mut Rng, thorough: bool) -> Vec<u8> {
+    if rng.chance(1, 10) {
+        // valid UTF-8 with multi-byte characters straddling the 8 KiB (and 16 KiB) chunk boundary
+        let mut v = vec![b'x'; 8191 - rng.below(2)];
+        v.extend_from_slice("é日".as_bytes());
+        if rng.chance(1, 2) {
+            v.extend(std::iter::repeat(b'y').take(8187));
+            v.extend_from_slice("ü".as_bytes());
+        }
+        v.extend_from_slice(b"tail");
+        return v;
+    }
     let n = match rng.below(12) {
         0 => 0,
         1 => 1,
@@ -102,6 +113,10 @@ pub fn run(o: &Opts) -> Report {
             let data = content(&mut rng, o.thorough());
             push(&mut world, &mut lines, &mut impl_out, &mut expect, format!("op {} write {} {}", t, enc_str(fpath), enc_bytes(&data)), Some("ok".into()));
             push(&mut world, &mut lines, &mut impl_out, &mut expect, format!("op {} metadata {}", t, enc_str(fpath)), Some(format!("ok F {}", data.len())));
+            // read_to_string: the whole content when it is valid UTF-8 (however the bytes are fetched), an error otherwise
+            if std::str::from_utf8(&data).is_ok() {
+                push(&mut world, &mut lines, &mut impl_out, &mut expect, format!("op {} read_to_string {}", t, enc_str(fpath)), Some(if data.is_empty() { "ok b".into() } else { format!("ok {}", enc_content(&data)) }));
+            }
             // ---- read handle script
             push(&mut world, &mut lines, &mut impl_out, &mut expect, format!("hopen 0 {} {}", t, enc_str(fpath)), Some("ok".into()));
             let mut cur = Cursor::new(data.clone());
